@@ -1,5 +1,6 @@
 import RedoModel.Lemmas.Deps
 import RedoModel.Props.C03b
+import RedoModel.Props.C03c
 /-!
 # C03 — Checksum cut-off: redo-stamp stops and forwards change exactly
 Property theorems only.  Model: `RedoModel/Deps.lean`.
